@@ -1,11 +1,151 @@
-(* C13/Props.v : the property theorems (statements only; proofs are in C13/Proofs.v). *)
+(* C13/Props.v : the property theorems of C13 (statements; proofs are in C13/Proofs.v, witnesses
+   in C13/Examples.v).  The finite table theorems name_table_ok(_partial/_refuted), label_class_<C>,
+   raw_roundtrip_<C>(_refuted) are stated and proved on every run over the tables regenerated from
+   /repo (_build/C13/table_theorems.v), because they are statements about those tables. *)
 From Coq Require Import String List ZArith Bool.
-From QV Require Import C13.Model C13.Proofs.
+From QV Require Import C13.Model C13.Proofs C13.Examples.
 Import ListNotations.
 Local Open Scope string_scope.
 Local Open Scope Z_scope.
 
+(* ---- OpenQASM ------------------------------------------------------------------------------- *)
+(* One gate: what write_gate prints is read back by read_gate as the same class on the same targets,
+   the same control set (ascending), the parameters as floats.  Hypothesis gate_fact is what the
+   per-class theorems label_class_<C> establish for the class of g. *)
+Theorem gate_qasm_roundtrip : forall rows bases specials rotation, M_tables_ok rows bases rotation ->
+  forall g st s, gate_fact rows bases specials g -> check_qubits (gtargets g) (gcontrols g) = true ->
+    write_gate rows g = OK st ->
+    (forall q, In q (gqubits g) -> get_qubit s (qref q) = OK q) ->
+    exists l fs g', st = SGate l fs (map qref (gqubits g))
+      /\ read_gate rows bases specials s l fs (map qref (gqubits g)) = OK g'
+      /\ gate_equiv g g' /\ is_M g' = false.
+Proof. intros rows bases specials rotation HM. exact (gate_roundtrip rows bases specials). Qed.
+Print Assumptions gate_qasm_roundtrip.
+
+(* Whole circuits (all n, all gate lists, all register layouts).  PARTIAL with respect to the property
+   text: excluded are (1) collapsed measurements (qe_nocollapse), (2) classes whose label fails the
+   table check, i.e. iSWAP on the current tree (inside gate_check), (3) two measurements with the same
+   register name (qe_names), (4) measurements of no qubits (qe_mq) -- each excluded case is refuted
+   below.  Conclusion: the re-imported circuit has the same n, the non-measurement gates are
+   gate_equiv to the original ones in the same order, followed by one measurement per register with
+   the same name and the same qubit order; measurement_tuples are equal. *)
+Theorem qasm_roundtrip_partial : forall rows bases specials rotation,
+  M_tables_ok rows bases rotation ->
+  (forall r, In r rows -> label_row_ok rows specials r = true -> class_fact rows bases specials r) ->
+  forall c mt s, qasm_exportable rows specials c mt -> write rows c = OK s ->
+  exists c' gs', read rows bases specials rotation s = OK c' /\ cn c' = cn c
+    /\ cqueue c' = (gs' ++ map MG mt)%list /\ cmeas c' = seq (length gs') (length mt)
+    /\ Forall2 gate_equiv (filter nonM (cqueue c)) gs' /\ Forall (fun g => is_M g = false) gs'
+    /\ measurement_tuples c' = measurement_tuples c.
+Proof. exact qasm_roundtrip_checked. Qed.
+Print Assumptions qasm_roundtrip_partial.
+
+(* non-vacuity: a circuit with an int-parameter RX, a CNOT on (2,0), H and two registers (2,0), (1)
+   satisfies every hypothesis on the example tables, and its export succeeds *)
+Example qasm_roundtrip_partial_nonvacuous :
+  M_tables_ok ex_rows ex_bases ex_rotation
+  /\ (forall r, In r ex_rows -> label_row_ok ex_rows ex_specials r = true -> class_fact ex_rows ex_bases ex_specials r)
+  /\ qasm_exportable ex_rows ex_specials ex_c ex_mt /\ exists s, write ex_rows ex_c = OK s.
+Proof. exact (conj ex_M_tables (conj ex_class_facts (conj ex_exportable ex_write_ok))). Qed.
+
+(* the full statement (no side conditions) is false of the faithful model: *)
+Theorem qasm_roundtrip_refuted : exists c s c',
+  ex_collapse_circuit = OK c /\ write ex_rows c = OK s
+  /\ read ex_rows ex_bases ex_specials ex_rotation s = OK c'
+  /\ length (filter is_M (cqueue c)) = 1%nat /\ length (filter is_M (cqueue c')) = 0%nat.
+Proof. exact ex_collapse_dropped. Qed.
+Print Assumptions qasm_roundtrip_refuted.
+
+Theorem qasm_roundtrip_refuted_implicit_collapse : exists c s c',
+  ex_implicit_collapse_circuit = OK c /\ write ex_rows c = OK s
+  /\ read ex_rows ex_bases ex_specials ex_rotation s = OK c'
+  /\ length (filter is_M (cqueue c)) = 1%nat /\ length (filter is_M (cqueue c')) = 0%nat.
+Proof. exact ex_implicit_collapse_dropped. Qed.
+
+Theorem qasm_roundtrip_refuted_iswap : exists c s,
+  ex_iswap_circuit = OK c /\ write ex_rows c = OK s
+  /\ read ex_rows ex_bases ex_specials ex_rotation s = Err EValueError.
+Proof. exact ex_iswap_rejected. Qed.
+
+Theorem qasm_roundtrip_refuted_duplicate_register : exists c s c',
+  ex_dupreg_circuit = OK c /\ write ex_rows c = OK s
+  /\ read ex_rows ex_bases ex_specials ex_rotation s = OK c'
+  /\ length (cmeas c) = 2%nat /\ length (cmeas c') = 1%nat.
+Proof. exact ex_dupreg_merged. Qed.
+
+(* the writer succeeds only on circuits without controlled_by gates, whose classes all have a label and
+   whose register names are lower case: everything else is an error at export time *)
+Theorem writer_total_or_error : forall rows c s,
+  write rows c = OK s ->
+  Forall (fun g => is_M g = false ->
+                   gcb g = false /\ exists r l, find_row (gcls g) rows = Some r /\ rlabel r = Some l) (cqueue c)
+  /\ Forall (fun rq => py_islower (fst rq) = OK true) (measurement_tuples c).
+Proof. exact write_ok_inv. Qed.
+Print Assumptions writer_total_or_error.
+
 (* a class whose constructor is `C( *q )` takes any number of qubits in the order the writer prints them *)
 Theorem star_class_any_arity : forall bases r, star_row r -> forall nq, std_ctor bases r 0 nq 0.
 Proof. exact star_row_std. Qed.
-Print Assumptions star_class_any_arity.
+
+(* ---- dictionaries ----------------------------------------------------------------------------- *)
+(* controlled_by on top of a class that round-trips (raw_roundtrip_<C>, generated) also round-trips *)
+Theorem raw_roundtrip_controlled_by : forall rows bases required g g' r cs,
+  find_row (gcls g) rows = Some r -> rcb r = CBGate -> String.eqb (gcls g) "M" = false ->
+  gcontrols g = [] -> cs <> [] -> memZ (Z.of_nat (length cs)) (rdispatch r) = false ->
+  nodupZ cs = true -> overlapZ (gtargets g) cs = false ->
+  from_dict rows bases (raw required g) = OK g' -> raw_rt_ok (OK g') g ->
+  from_dict rows bases (raw required (with_controls g cs)) = OK (with_controls g' cs)
+  /\ raw_rt_ok (OK (with_controls g' cs)) (with_controls g cs).
+Proof. exact raw_roundtrip_controlled. Qed.
+Print Assumptions raw_roundtrip_controlled_by.
+
+Theorem raw_roundtrip_refuted_Align : exists g g',
+  construct ex_bases ex_Align [VA (AInt 1); VA (AInt 3)] [] = OK g
+  /\ from_dict ex_rows ex_bases (raw ex_required g) = OK g'
+  /\ gparams g = [VA (AInt 3)] /\ gparams g' = [VA (AInt 0)].
+Proof. exact ex_align_delay_lost. Qed.
+
+Theorem circuit_dict_roundtrip_refuted : exists c c',
+  ex_basis_circuit = OK c
+  /\ cfrom_dict ex_rows ex_bases ex_rotation (craw ex_required c) = OK c'
+  /\ length (cqueue c) = 3%nat /\ length (cqueue c') = 5%nat.
+Proof. exact ex_basis_duplicated. Qed.
+Print Assumptions circuit_dict_roundtrip_refuted.
+
+(* ---- results ---------------------------------------------------------------------------------- *)
+(* MeasurementOutcomes.to_dict / from_dict keep measurements, nshots, stored samples, the probabilities
+   when no samples are stored, and the observable frequencies -- PARTIAL: unless frequencies were drawn
+   without samples (then they are not part of the dictionary: result_roundtrip_refuted) *)
+Theorem result_roundtrip_partial : forall (Pr Sa Fr : Type) (freq_of : Sa -> Fr) (r : mo Pr Sa Fr),
+  mo_consistent Pr Sa Fr freq_of r ->
+  (mo_freq _ _ _ r = None \/ exists s, mo_samples _ _ _ r = Some s) ->
+  let r' := mo_from_dict _ _ _ (mo_to_dict _ _ _ r) in
+  mo_meas _ _ _ r' = mo_meas _ _ _ r /\ mo_nshots _ _ _ r' = mo_nshots _ _ _ r
+  /\ mo_samples _ _ _ r' = mo_samples _ _ _ r
+  /\ (mo_samples _ _ _ r = None -> mo_probs _ _ _ r' = mo_probs _ _ _ r)
+  /\ obs_freq Pr Sa Fr freq_of r' = obs_freq Pr Sa Fr freq_of r.
+Proof. exact mo_roundtrip. Qed.
+Print Assumptions result_roundtrip_partial.
+
+Example result_roundtrip_partial_nonvacuous :
+  let r := mkMO nat (list nat) nat [] (Some 5%nat) (Some [1%nat; 0%nat]) 2 (Some 1%nat) in
+  mo_consistent nat (list nat) nat (@length nat) (mkMO nat (list nat) nat [] None (Some [1%nat; 0%nat]) 2 (Some 2%nat))
+  /\ (mo_freq _ _ _ r = None \/ exists s, mo_samples _ _ _ r = Some s).
+Proof. split; [intros s f Hs Hf; simpl in *; injection Hs as <-; injection Hf as <-; reflexivity | right; eexists; reflexivity]. Qed.
+
+Theorem result_roundtrip_refuted : forall (Pr Sa Fr : Type) (freq_of : Sa -> Fr) (p : Pr) (f : Fr),
+  let r := mkMO Pr Sa Fr [] (Some p) None 10 (Some f) in
+  obs_freq Pr Sa Fr freq_of r = Some f
+  /\ obs_freq Pr Sa Fr freq_of (mo_from_dict _ _ _ (mo_to_dict _ _ _ r)) = None.
+Proof. exact mo_roundtrip_refuted_witness. Qed.
+
+(* CircuitResult: the state, the measurements, nshots and stored samples survive; samples that were not
+   stored are drawn by the loader (oracle `draw`) *)
+Theorem circuit_result_roundtrip : forall (St Pr Sa Fr : Type) (draw : Pr -> Z -> Sa) (r r' : cr St Pr Sa Fr),
+  cr_from_dict St Pr Sa Fr draw (cr_to_dict St Pr Sa Fr r) = Some r' ->
+  cr_state _ _ _ _ r' = cr_state _ _ _ _ r
+  /\ mo_meas _ _ _ (cr_mo _ _ _ _ r') = mo_meas _ _ _ (cr_mo _ _ _ _ r)
+  /\ mo_nshots _ _ _ (cr_mo _ _ _ _ r') = mo_nshots _ _ _ (cr_mo _ _ _ _ r)
+  /\ (forall s, mo_samples _ _ _ (cr_mo _ _ _ _ r) = Some s -> mo_samples _ _ _ (cr_mo _ _ _ _ r') = Some s).
+Proof. exact cr_roundtrip. Qed.
+Print Assumptions circuit_result_roundtrip.
